@@ -560,7 +560,8 @@ func c14(c *core.Ctx, r *core.Report) {
 						guardOK := false
 						for _, g := range an.GuardsOf(call.Block()) {
 							gd := stripCaret(an.D().Of(g.Cond))
-							if strings.Contains(gd, ".UsersConcurrency == 0") && g.Polarity {
+							if (strings.Contains(gd, ".UsersConcurrency == 0") && g.Polarity) || (strings.Contains(gd, ".UsersConcurrency != 0") && !g.Polarity) ||
+								(strings.Contains(gd, ".UsersConcurrency > 0") && !g.Polarity) || (strings.Contains(gd, ".UsersConcurrency <= 0") && g.Polarity) {
 								guardOK = true
 							}
 						}
@@ -780,8 +781,7 @@ func c14(c *core.Ctx, r *core.Report) {
 	rule(r, "C14.R5", "integer divisions and remainders have a divisor that is a non-zero constant (or a constant duration's Milliseconds()) or are guarded by a zero test of the divisor", func() {
 		n := 0
 		for _, fn := range c.AllFuncs {
-			rel := core.RelPkg(fn)
-			if rel == "internal/chart" || rel == "benchcmd" {
+			if !inputFacing(fn) {
 				continue
 			}
 			an.Instrs(fn, func(in ssa.Instruction) {
@@ -814,10 +814,15 @@ func c14(c *core.Ctx, r *core.Report) {
 						}
 					}
 				}
+				// positive by guards / parameters whose every caller passes a positive value
+				if nonZeroByPositivity(c, in, bo.Y, 3) {
+					r.OK(key, an.Pos(c, in), "divisor %s is positive on every path reaching it", an.D().Of(bo.Y))
+					return
+				}
 				r.Violation(key, an.Pos(c, in), "integer %s by %s without a non-zero guard: division by zero panics", bo.Op, an.D().Of(bo.Y))
 			})
 		}
-		r.Floor("integer divisions", n, 2)
+		r.Floor("integer divisions in input-facing code", n, 1)
 	})
 
 	rule(r, "C14.R6", "rejection precedes setup: in runCmdExecute the trigger constructor's error test and the flag validation dominate NewRun and Do", func() {
@@ -961,4 +966,63 @@ func shortPath(p string) string {
 		return head + "()#0" + p[i+3:]
 	}
 	return p
+}
+
+// nonZeroByPositivity: the divisor is positive — by a guard, by being a parameter (or a captured parameter)
+// that every caller feeds with a positive value, or by being bounded below by a positive value
+// (`d < u → error` with u positive).
+func nonZeroByPositivity(c *core.Ctx, at ssa.Instruction, v ssa.Value, depth int) bool {
+	if depth <= 0 {
+		return false
+	}
+	v = stripAllocs(v)
+	// a method call on the value (Milliseconds, Nanoseconds…) preserves sign
+	if call, ok := v.(*ssa.Call); ok && len(call.Call.Args) == 1 && an.Callee(call) != nil && an.Callee(call).Pkg != nil && an.Callee(call).Pkg.Pkg.Path() == "time" {
+		return nonZeroByPositivity(c, at, call.Call.Args[0], depth)
+	}
+	if cv, ok := v.(*ssa.Convert); ok {
+		return nonZeroByPositivity(c, at, cv.X, depth)
+	}
+	if fv, ok := v.(*ssa.FreeVar); ok {
+		if b := an.FreeVarBinding(fv); b != nil {
+			if al, isAl := b.(*ssa.Alloc); isAl {
+				if sts := an.StoresTo(al); len(sts) == 1 {
+					// the closure is created after the stores' guards: judge at the closure creation
+					for _, ref := range an.Referrers(al) {
+						if mc, isMC := ref.(*ssa.MakeClosure); isMC {
+							return nonZeroByPositivity(c, mc, sts[0].Val, depth)
+						}
+					}
+				}
+			}
+		}
+		return false
+	}
+	s := valuePositive(c, at, v, 4)
+	if s.kind == posYes {
+		return true
+	}
+	if p, ok := v.(*ssa.Parameter); ok {
+		// lower bound by another positive value: `p < u → return error`
+		for _, g := range an.GuardsOf(at.Block()) {
+			bo, ok := g.Cond.(*ssa.BinOp)
+			if ok && stripAllocs(bo.X) == ssa.Value(p) && bo.Op == token.LSS && !g.Polarity {
+				if valuePositive(c, g.If, bo.Y, 4).kind == posYes {
+					return true
+				}
+			}
+		}
+		sites := an.CallSitesOf(c, p.Parent())
+		if len(sites) == 0 {
+			return false
+		}
+		idx := paramIdx(p)
+		for _, cs := range sites {
+			if idx >= len(cs.Common().Args) || !nonZeroByPositivity(c, cs, cs.Common().Args[idx], depth-1) {
+				return false
+			}
+		}
+		return true
+	}
+	return false
 }
